@@ -317,6 +317,9 @@ theorem sampleAction_attains_envelope {m : Pomdp} {vf : VF} (hc : ConsistentExac
 
 /-! ## Policy::sampleAction(id, o, h) along every observation history -/
 
+/-- the syntactic fact read from `Policy.cpp` on every run: the link is looked up one level above `horizon` -/
+theorem policyLinkLevel_eq : Gen.C04.policyLinkLevel = 1 := rfl
+
 /-- every step of a replay lands on an entry that exists, and reports that entry's action -/
 def FollowOK (vf : VF) : Nat → List (Nat × Nat) → Prop
   | _, [] => True
@@ -341,7 +344,7 @@ theorem follow_in_range {step} {m : Pomdp} {vf : VF} (hc : ConsistentW step m vf
       have ho : o < m.O := hos o (List.mem_cons_self ..)
       have hl := ok.link_lt o ho
       obtain ⟨i1, i2⟩ := ih (link (entry vf (h+1) id) o) os (by omega) hl (fun o' ho' => hos o' (List.mem_cons_of_mem _ ho'))
-      simp only [follow, sampleActionIdO, List.length_cons]
+      simp only [follow, sampleActionIdO, List.length_cons, policyLinkLevel_eq]
       refine ⟨⟨hl, rfl, i1⟩, ?_⟩
       rw [i2]; omega
 
@@ -350,10 +353,9 @@ theorem sampleActionIdO_defined {step} {m : Pomdp} {vf : VF} (hc : ConsistentW s
     sampleActionIdO? vf id o h = some (sampleActionIdO vf id o h) := by
   have ok := hc h hh id hid
   have hl := ok.link_lt o ho
+  have hcond : id < (vlist vf (h+1)).length ∧ o < (entry vf (h+1) id).obs.length := ⟨hid, by rw [ok.obs_len]; exact ho⟩
   unfold sampleActionIdO? sampleActionIdO
-  rw [if_pos ⟨hid, by rw [ok.obs_len]; exact ho⟩]
-  simp only []
-  rw [if_pos hl]
+  simp only [policyLinkLevel_eq, hcond, hl, and_self, if_true]
 
 /-! ## the first action and the look-ahead / the optimal value -/
 
